@@ -7,10 +7,11 @@ use std::collections::BTreeSet;
 // does all the hard work. Essentially, they are just flags telling pipeline
 // what to do, given their provided options
 
-// Yes - push and pop do not accept the inv flag although they are both invertible.
-// If you want to invert a push, then use a pop (and vice versa).
+// An inverted push is a pop (and vice versa): The pipeline operator exchanges
+// the two when the step, or the macro it stems from, is marked `inv`.
 #[rustfmt::skip]
-pub const PUSH_POP_GAMUT: [OpParameter; 4] = [
+pub const PUSH_POP_GAMUT: [OpParameter; 5] = [
+    OpParameter::Flag { key: "inv" },
     OpParameter::Flag { key: "v_1" },
     OpParameter::Flag { key: "v_2" },
     OpParameter::Flag { key: "v_3" },
